@@ -251,6 +251,9 @@ class KeyAnalysis:
                         recv, name = call_method(it)
                         if recv is not None and name in ("values", "items"):
                             ref = self.dict_ref(recv)
+                            # the table iterated in place: `for group in self.get_message_pairings().values():`
+                            if ref is None and isinstance(recv, ast.Call) and self.summaries.get(call_method(recv)[1]) == CH:
+                                di.per_channel_scope = True
                     if ref and self.level_kind(ref) == CH:
                         di.per_channel_scope = True
                 if a is self.fi.node:
